@@ -97,10 +97,14 @@ func ParseExpression(rewrites []*openfgav1.Userset, operator RelationDefinitionO
 }
 
 func (l *OpenFgaDslListener) EnterMain(_ *parser.MainContext) {
+	defer verifTraceDoc(l, "EnterMain", nil)
+
 	l.authorizationModel.Conditions = map[string]*openfgav1.Condition{}
 }
 
 func (l *OpenFgaDslListener) ExitModuleHeader(ctx *parser.ModuleHeaderContext) {
+	defer verifTraceDoc(l, "ExitModuleHeader", ctx)
+
 	l.isModularModel = true
 	l.typeDefExtensions = map[string]*openfgav1.TypeDefinition{}
 
@@ -110,12 +114,16 @@ func (l *OpenFgaDslListener) ExitModuleHeader(ctx *parser.ModuleHeaderContext) {
 }
 
 func (l *OpenFgaDslListener) ExitModelHeader(ctx *parser.ModelHeaderContext) {
+	defer verifTraceDoc(l, "ExitModelHeader", ctx)
+
 	if ctx.GetSchemaVersion() != nil {
 		l.authorizationModel.SchemaVersion = ctx.GetSchemaVersion().GetText()
 	}
 }
 
 func (l *OpenFgaDslListener) EnterTypeDef(ctx *parser.TypeDefContext) {
+	defer verifTraceDoc(l, "EnterTypeDef", ctx)
+
 	if ctx.GetTypeName() == nil {
 		return
 	}
@@ -142,10 +150,14 @@ func (l *OpenFgaDslListener) EnterTypeDef(ctx *parser.TypeDefContext) {
 }
 
 func (l *OpenFgaDslListener) EnterConditions(_ *parser.ConditionsContext) {
+	defer verifTraceDoc(l, "EnterConditions", nil)
+
 	l.authorizationModel.Conditions = map[string]*openfgav1.Condition{}
 }
 
 func (l *OpenFgaDslListener) EnterCondition(ctx *parser.ConditionContext) {
+	defer verifTraceDoc(l, "EnterCondition", ctx)
+
 	if ctx.ConditionName() == nil {
 		return
 	}
@@ -172,6 +184,8 @@ func (l *OpenFgaDslListener) EnterCondition(ctx *parser.ConditionContext) {
 }
 
 func (l *OpenFgaDslListener) ExitConditionParameter(ctx *parser.ConditionParameterContext) {
+	defer verifTraceDoc(l, "ExitConditionParameter", ctx)
+
 	if ctx.ParameterName() == nil || ctx.ParameterType() == nil {
 		return
 	}
@@ -221,10 +235,14 @@ func (l *OpenFgaDslListener) ExitConditionParameter(ctx *parser.ConditionParamet
 }
 
 func (l *OpenFgaDslListener) ExitConditionExpression(ctx *parser.ConditionExpressionContext) {
+	defer verifTraceDoc(l, "ExitConditionExpression", ctx)
+
 	l.currentCondition.Expression = strings.TrimRight(ctx.GetText(), "\n")
 }
 
 func (l *OpenFgaDslListener) ExitCondition(_ *parser.ConditionContext) {
+	defer verifTraceDoc(l, "ExitCondition", nil)
+
 	if l.currentCondition != nil {
 		l.authorizationModel.Conditions[l.currentCondition.GetName()] = l.currentCondition
 
@@ -233,6 +251,8 @@ func (l *OpenFgaDslListener) ExitCondition(_ *parser.ConditionContext) {
 }
 
 func (l *OpenFgaDslListener) ExitTypeDef(ctx *parser.TypeDefContext) {
+	defer verifTraceDoc(l, "ExitTypeDef", ctx)
+
 	if l.currentTypeDef == nil || l.currentTypeDef.GetType() == "" {
 		return
 	}
@@ -272,6 +292,8 @@ func (l *OpenFgaDslListener) EnterRelationDeclaration(_ *parser.RelationDeclarat
 }
 
 func (l *OpenFgaDslListener) ExitRelationDeclaration(ctx *parser.RelationDeclarationContext) {
+	defer verifTraceDoc(l, "ExitRelDecl", ctx)
+
 	verifTraceListener(l, "ExitRelDecl")
 
 	if ctx.RelationName() == nil {
@@ -323,6 +345,8 @@ func (l *OpenFgaDslListener) ExitRelationDefDirectAssignment(_ *parser.RelationD
 }
 
 func (l *OpenFgaDslListener) ExitRelationDefTypeRestriction(ctx *parser.RelationDefTypeRestrictionContext) {
+	defer verifTraceDoc(l, "ExitRestriction", ctx)
+
 	baseRestriction := ctx.RelationDefTypeRestrictionBase()
 	if baseRestriction == nil {
 		return
